@@ -81,7 +81,7 @@ Proof.
     eexists. split; [reflexivity|]. constructor; cbn [with_pending sp_pending sp_handlers sp_now sp_npid sp_inc]; try congruence.
     all: try (rewrite C; exact RF). all: try exact I'.
   - (* ERun *)
-    destruct (run_pinv s (sp_pending sp) tid RP) as (s' & o & P' & Hd & Hc & Hp & I' & A & B & C & D & E).
+    destruct (run_pinv s (sp_pending sp) tid RP) as (s' & o & P' & Hd & Hc & Hp & I' & A & B & C & D & E & _).
     rewrite Hd. cbn [fst snd]. unfold spec_step. rewrite Hp, RN, Hc.
     eexists. split; [reflexivity|]. constructor; cbn [with_pending sp_pending sp_handlers sp_now sp_npid sp_inc]; try congruence.
     all: try (rewrite C; exact RF). all: try exact I'.
